@@ -200,6 +200,24 @@ func Upgrade8To10(old, new string, logger *log.Logger) (retErr error) {
 	// Check for existing plan (crash recovery).
 	if fsutil.FileExists(planPath) {
 		logger.Printf("found existing upgrade plan at %s, resuming", planPath)
+		if fsutil.DirExists(new) {
+			// 'new' only ever comes into existence through the plan's rename of the
+			// fully built temporary directory, so everything up to and including
+			// that rename has completed. Replaying those operations would rebuild
+			// the temporary directory and then fail to rename it over 'new' (or
+			// fail to find the already-removed source database). Only the cleanup
+			// remains: any rebuilt temporary directory, the old directory, the plan.
+			if err := os.RemoveAll(tmpName(new)); err != nil {
+				return fmt.Errorf("removing temporary upgrade directory: %w", err)
+			}
+			if err := os.RemoveAll(old); err != nil {
+				return fmt.Errorf("removing old snapshot directory %s: %w", old, err)
+			}
+			os.Remove(planPath)
+			logger.Printf("completed interrupted upgrade of v8 snapshot directory to %s", new)
+			stats.Add(upgradeOk, 1)
+			return nil
+		}
 		p, err := plan.ReadFromFile(planPath)
 		if err != nil {
 			return fmt.Errorf("reading upgrade plan: %w", err)
